@@ -282,6 +282,8 @@ MultiLine(ev, args, tbl, aux) ==
   IN
   /\ Chk("C03", "isolation.run", ChSet(ev) \subseteq (addrs \cup k0) /\ k1 \subseteq (k0 \cup addrs), ev, "other.row")
   /\ Chk("C03", "row.key", \A b \in k1 : pt[b].a = b, ev, "key")
+  \* frames of other aircraft remove nobody who is not overdue (however many rows there are)
+  /\ Chk("C03", "no.loss.run", \A b \in k0 : freshAtEnd(b) => b \in k1, ev, "lost.row")
   \* heard less than delete_after seconds ago (before the run, or in it): must be in the table
   /\ Chk("C12", "present", \A b \in (k0 \cup addrs) :
                               (b \in addrs /\ D > now1 - now0) \/ (b \in k0 /\ freshAtEnd(b)) => b \in k1, ev, "present")
@@ -664,6 +666,10 @@ TcpStep(ev) ==
       addrsOf(k) == {LineInfo(allLines[k][j]).a : j \in {x \in 1..Len(allLines[k]) :
                         LET li == LineInfo(allLines[k][x]) IN li.isf /\ li.a # 0 /\ li.df \in NineDF}}
       expected == UNION {addrsOf(k) : k \in 1..nc}
+      \* frames of formats outside the nine: which row they touch is not fixed by any property (either reading of the address)
+      wildOf(k) == UNION {LET li == LineInfo(allLines[k][j]) IN
+                            IF li.isf /\ li.df \notin NineDF THEN {li.a, Field(li.f, 9, 32)} ELSE {} : j \in 1..Len(allLines[k])}
+      wild == UNION {wildOf(k) : k \in 1..nc}
       shown == IF ev.last = <<>> THEN {} ELSE {RowAddr(ev.last[1].rows[j]) : j \in 1..Len(ev.last[1].rows)}
       healthy == nc > 0 /\ ev.conns[nc].kind = "healthy"
   IN
@@ -676,7 +682,7 @@ TcpStep(ev) ==
                 IF gap < 5000 * c.refused_before - 500 THEN "too.early" ELSE "too.late")
        ELSE Chk("C18", "prompt", k = 1 \/ gap <= 4500, [i |-> ev.i], "slow.reconnect")
   /\ Chk("C18", "table.kept", (healthy /\ ~ev.noaccept) => expected \subseteq shown, ev, "lost.aircraft")
-  /\ Chk("C18", "partial.line", (healthy /\ ~ev.noaccept) => shown \subseteq expected, ev, "phantom.aircraft")
+  /\ Chk("C18", "partial.line", (healthy /\ ~ev.noaccept) => shown \subseteq (expected \cup wild), ev, "phantom.aircraft")
   /\ Chk("C13", "tcp.junk", (healthy /\ ~ev.noaccept) => expected \subseteq shown, ev, "junk")
   /\ Mark("C18", Len(ev.faults) > 0, ev)
   /\ Mark("C13", \E k \in 1..nc : ev.conns[k].kind = "junk", ev)
